@@ -55,6 +55,28 @@ def cases(rng, tier):
                     'model': None, 'model_line': stepgen.case_line(sts[0], t, steps), 'spec': None,
                     'spec_impl': {'kind': 'multi', 'states': [sts[0]], 'sched': [0] * steps, 'probe': 0},
                     'label': 'rerun_same_config' if same else 'rerun_two_configs', 'nontrivial': True})
+    # the same instruction word executed by two instances with different register / flag contents: anything remembered per
+    # word, per class or per immediate in shared (module- or class-level) state shows in the second instance; its reference
+    # run is alone in a fresh interpreter
+    from props import c18
+    pool = c18.class_directed_words(rng, 'quick')
+    for k in range(40 if tier == 'quick' else 1500):
+        kind, w = rng.choice(pool)
+        cfg = copy.deepcopy(statelib.DEFAULT_CFG)
+        sts = []
+        for _ in range(2):
+            st = stepgen.random_state(rng, t, thumb=(kind != 'arm'), cfg=cfg)
+            for i in range(33):
+                if rng.random() < 0.6:
+                    st['R'][i] = 0x1000 + 8 * rng.randrange(0, 24)
+            if kind == 't32':
+                st['_thumb32'] = True
+            stepgen.put_instr(st, w, 32)
+            sts.append(stepgen.clean(st))
+        out.append({'impl': {'kind': 'multi', 'states': sts, 'sched': [0, 1], 'probe': 1},
+                    'model': None, 'model_line': stepgen.case_line(sts[1], t, 1), 'spec': None,
+                    'spec_impl': {'kind': 'multi', 'states': [sts[1]], 'sched': [0], 'probe': 0}, 'spec_impl_fresh': True,
+                    'label': 'same_word_' + kind, 'nontrivial': True})
     # construction and reset: two instances whose configuration files differ only in the registers' reset values
     # (the values are captured when an instance is built, so the configuration singleton does not interfere here)
     for k in range(6 if tier == 'quick' else 200):
@@ -73,4 +95,4 @@ def cases(rng, tier):
 
 
 def units():
-    return [Unit('isolation', ['C20_isolation'], ['Proofs/Isolation.v'], ['arm_v6.ArmV6.emulate_cycle'], cases, IMPORTS, None)]
+    return [Unit('isolation', ['C20_isolation'], ['Proofs/Isolation.v'], ['arm_v6.ArmV6.emulate_cycle', '*'], cases, IMPORTS, None)]
